@@ -4,7 +4,8 @@
 //! common case fields:  <parser> <ty> <flags> <datahex> <events> <pre> <chunk> <ctor>
 //!   parser: cnf wcnf gcnf log aag aig btor2        ty: i8..isize (DIMACS) / u8..usize (AIGER) / -
 //!   flags : 'h' ignore_header, 'u' ignore_unknown_lines, 'w' whole-file API (AIGER) / written lines (BTOR2),
-//!           'x' AIGER: whole-file API, then the value written back with the crate's writer(s), '-' none
+//!           'x' AIGER: whole-file API, then the value written back with the crate's writer(s); cnf/wcnf/gcnf: after a
+//!           clean end, header and clauses written back with write_header / write_clause; '-' none
 //!   ctor  : r from_read, b from_boxed_dyn_read, f from_buf_reader (pre bytes sit in the BufReader)
 use crate::common::*;
 use flussab::DeferredReader;
@@ -150,13 +151,24 @@ fn run_cnf<L: flussab_cnf::Dimacs + std::fmt::Debug>(s: &Setup, t: &mut Trace, s
     };
     t.items.push(match p.header() { Some(h) => format!("H({},{})", h.var_count, h.clause_count), None => "H-".into() });
     t.calls_at_item.push(stats.borrow().effective_calls);
+    // flag 'x': after a clean end, header and clauses written back with cnf::write_header / write_clause: W:<hex>
+    let want_w = s.flags.contains('x');
+    let hdr = p.header();
+    let mut kept: Vec<Vec<L>> = vec![];
     loop {
         match p.next_clause() {
             Ok(Some(c)) => {
                 t.items.push(lits(&c.iter().map(|l| l.dimacs()).collect::<Vec<_>>()));
                 t.calls_at_item.push(stats.borrow().effective_calls);
+                if want_w { kept.push(c.to_vec()); }
             }
-            Ok(None) => { t.fin = "ok".into(); return; }
+            Ok(None) => {
+                if want_w {
+                    t.items.push(format!("W:{}", hex(&write_to_vec(|w| { if let Some(h) = hdr { cnf::write_header(w, h); } for c in &kept { cnf::write_clause(w, c); } }))));
+                    t.calls_at_item.push(stats.borrow().effective_calls);
+                }
+                t.fin = "ok".into(); return;
+            }
             Err(e) => { t.fin = show_err_cnf(&e); return; }
         }
         if t.items.len() > 2_000_000 { t.fin = "RUNAWAY".into(); return; }
@@ -172,13 +184,23 @@ fn run_wcnf<L: flussab_cnf::Dimacs + std::fmt::Debug>(s: &Setup, t: &mut Trace, 
     };
     t.items.push(match p.header() { Some(h) => format!("H({},{},{})", h.var_count, h.clause_count, h.top_weight), None => "H-".into() });
     t.calls_at_item.push(stats.borrow().effective_calls);
+    let want_w = s.flags.contains('x');
+    let hdr = p.header();
+    let mut kept: Vec<(u64, Vec<L>)> = vec![];
     loop {
         match p.next_clause() {
             Ok(Some((w, c))) => {
                 t.items.push(format!("{}:{}", w, lits(&c.iter().map(|l| l.dimacs()).collect::<Vec<_>>())));
                 t.calls_at_item.push(stats.borrow().effective_calls);
+                if want_w { kept.push((w, c.to_vec())); }
             }
-            Ok(None) => { t.fin = "ok".into(); return; }
+            Ok(None) => {
+                if want_w {
+                    t.items.push(format!("W:{}", hex(&write_to_vec(|wr| { if let Some(h) = hdr { wcnf::write_header(wr, h); } for (wt, c) in &kept { wcnf::write_clause(wr, *wt, c); } }))));
+                    t.calls_at_item.push(stats.borrow().effective_calls);
+                }
+                t.fin = "ok".into(); return;
+            }
             Err(e) => { t.fin = show_err_cnf(&e); return; }
         }
         if t.items.len() > 2_000_000 { t.fin = "RUNAWAY".into(); return; }
@@ -194,13 +216,23 @@ fn run_gcnf<L: flussab_cnf::Dimacs + std::fmt::Debug>(s: &Setup, t: &mut Trace, 
     };
     t.items.push(match p.header() { Some(h) => format!("H({},{},{})", h.var_count, h.clause_count, h.group_count), None => "H-".into() });
     t.calls_at_item.push(stats.borrow().effective_calls);
+    let want_w = s.flags.contains('x');
+    let hdr = p.header();
+    let mut kept: Vec<(usize, Vec<L>)> = vec![];
     loop {
         match p.next_clause() {
             Ok(Some((g, c))) => {
                 t.items.push(format!("{{{}}}{}", g, lits(&c.iter().map(|l| l.dimacs()).collect::<Vec<_>>())));
                 t.calls_at_item.push(stats.borrow().effective_calls);
+                if want_w { kept.push((g, c.to_vec())); }
             }
-            Ok(None) => { t.fin = "ok".into(); return; }
+            Ok(None) => {
+                if want_w {
+                    t.items.push(format!("W:{}", hex(&write_to_vec(|wr| { if let Some(h) = hdr { gcnf::write_header(wr, h); } for (g, c) in &kept { gcnf::write_clause(wr, *g, c); } }))));
+                    t.calls_at_item.push(stats.borrow().effective_calls);
+                }
+                t.fin = "ok".into(); return;
+            }
             Err(e) => { t.fin = show_err_cnf(&e); return; }
         }
         if t.items.len() > 2_000_000 { t.fin = "RUNAWAY".into(); return; }
@@ -347,15 +379,11 @@ fn run_aig<L: flussab_aiger::Lit>(s: &Setup, t: &mut Trace, stats: &Rc<RefCell<S
         match p.parse() {
             Ok(a) => {
                 t.items.push(show_ordered_aig(&a)); t.calls_at_item.push(stats.borrow().effective_calls);
-                // the writer computes (input_count + 1) * 2 and `code += 2` per latch / gate in plain usize arithmetic:
-                // where that overflows (panic with overflow checks, wrap without) the case says so instead of calling it
-                // (flag 'X', implementation only: call the writer regardless, to show the panic)
-                let ovf = !s.flags.contains('X') && a.input_count.checked_add(1).and_then(|x| x.checked_add(a.latches.len()))
-                    .and_then(|x| x.checked_add(a.and_gates.len())).and_then(|x| x.checked_mul(2)).is_none();
-                t.items.push(if ovf { "W:OVF".to_string() } else { format!("W:{}", hex(&write_binary_aig_to_vec(&a))) });
+                // (D14: the writer's running code wraps like the parser's; up to I + L + A = M = 2^63 - 1 it does not panic)
+                t.items.push(format!("W:{}", hex(&write_binary_aig_to_vec(&a))));
                 t.calls_at_item.push(stats.borrow().effective_calls);
                 // the same value with the two inputs of every gate exchanged: write_and_gate puts them back in order
-                if !ovf {
+                {
                     let mut b = a.clone();
                     for g in b.and_gates.iter_mut() { g.inputs.swap(0, 1); }
                     t.items.push(format!("WS:{}", hex(&write_binary_aig_to_vec(&b))));
